@@ -7,7 +7,7 @@ structure RawWF (r : Raw) : Prop where
   ntrans : r.trans.length < 2147483648
   trans_ok : ∀ p ∈ r.trans, In32 p.1 ∧ p.2 < r.types.length ∧ p.2 < 256
   types_ok : ∀ t ∈ r.types, TypeOK t
-  abbr_ok : (abbrBlock r.types).length ≤ 128
+  abbr_ok : (abbrBlock r.types).length ≤ 256
 
 theorem encode_eq (r : Raw) : encode r =
     magic ++ (List.replicate 16 0 ++
@@ -22,7 +22,7 @@ theorem encode_eq (r : Raw) : encode r =
   simp only [encode, List.append_assoc]
   rfl
 
-theorem types_le (r : Raw) (h : RawWF r) : r.types.length ≤ 128 := by
+theorem types_le (r : Raw) (h : RawWF r) : r.types.length ≤ 256 := by
   have := h.abbr_ok
   have : r.types.length ≤ (abbrBlock r.types).length := by
     unfold abbrBlock
